@@ -1,6 +1,7 @@
 package props
 
 import (
+	rwire "google.golang.org/protobuf/encoding/protowire"
 	"bytes"
 	"context"
 	"fmt"
@@ -237,6 +238,23 @@ func c13Proto(c *h.Ctx) {
 		desc := svc.LookupMethodByName("M").Input()
 		m := PGenMsg(cs.R, pc.Root, PValCfg{MaxElems: 5, MaxDepth: 3}, 0)
 		b := PMarshal(m)
+		if cs.R.Chance(50) {
+			// an empty packed record (tag, length 0) for absent packed fields: legal wire data that denotes the
+			// same message (the empty list); it comes out of p2j as [] and must survive the way back
+			fds := pc.Root.Fields()
+			for i := 0; i < fds.Len(); i++ {
+				fd := fds.Get(i)
+				if fd.IsList() && fd.IsPacked() && !m.Has(fd) {
+					rec := rwire.AppendVarint(rwire.AppendTag(nil, fd.Number(), rwire.BytesType), 0)
+					if cs.R.Bool() {
+						b = append(rec, b...)
+					} else {
+						b = append(b, rec...)
+					}
+					cs.Cover("empty_packed_record_injected")
+				}
+			}
+		}
 		cs.Info("message", trunc(fmt.Sprint(m)))
 		cs.Info("bytes", hexs(b))
 		ctx := context.Background()
